@@ -177,7 +177,9 @@ func (g *Gen) keyOf(fn *ssa.Function) string {
 		// strip synthetic suffixes of wrappers
 		return fmt.Sprintf("%s.(%s%s).%s", pkgName, ptr, tn, name)
 	}
-	return pkgName + "." + fn.Name()
+	// the n-th declared "func init()" of a package is init#n in SSA; '#' is the separator of
+	// secondary contracts, so the key writes it as init.n
+	return pkgName + "." + strings.Replace(fn.Name(), "init#", "init.", 1)
 }
 
 func (g *Gen) contractFor(fn *ssa.Function) *Contract {
